@@ -127,3 +127,52 @@ fn check_transition(r: Option<crate::tz::TimeZoneTransition<'_>>, ts: crate::Tim
         }
     }
 }
+
+// ---- the rule evaluator itself (src/shared/posix.rs): which civil datetime does it evaluate the rule at? ----
+// The arithmetic of the evaluation is unit `posix` (Verus).  This probe pins the plumbing in front of it: the instant handed to
+// `ITimestamp::to_datetime` is the queried instant, sub-second part included (an instant before 1970 with a fraction lies in the
+// PREVIOUS civil second; dropping the fraction moves it across a transition).
+static mut DT_ARG: ITimestamp = ITimestamp { second: 0, nanosecond: 0 };
+static mut DT_OFF: i32 = 1;
+static mut DT_CALLS: u32 = 0;
+fn probe_to_datetime(ts: &ITimestamp, off: IOffset) -> IDateTime {
+    unsafe { DT_CALLS += 1; DT_ARG = *ts; DT_OFF = off.second; }
+    // any civil datetime of a supported year (the contract of ITimestamp::to_datetime: unit itime)
+    let y: i16 = kani::any(); let m: i8 = kani::any(); let d: i8 = kani::any();
+    kani::assume(-9999 <= y && y <= 9999 && 1 <= m && m <= 12 && 1 <= d && d <= 28);
+    let h: i8 = kani::any(); let mi: i8 = kani::any(); let s: i8 = kani::any(); let n: i32 = kani::any();
+    kani::assume(0 <= h && h <= 23 && 0 <= mi && mi <= 59 && 0 <= s && s <= 59 && 0 <= n && n <= 999_999_999);
+    IDateTime {
+        date: crate::shared::util::itime::IDate { year: y, month: m, day: d },
+        time: crate::shared::util::itime::ITime { hour: h, minute: mi, second: s, subsec_nanosecond: n },
+    }
+}
+//@harness c03_shared_posix_evaluates_at_the_instant
+//@target shared::PosixTimeZone::{to_offset, to_offset_info}: argument of ITimestamp::to_datetime (src/shared/posix.rs)
+//@prop C03 C13 C14
+//@tier quick
+//@mode rel
+//@doc for every instant and a zone with a DST rule: the rule is evaluated at ITimestamp::to_datetime(IOffset::UTC) of exactly the queried instant -- the same second AND the same sub-second nanoseconds -- called once
+#[kani::proof]
+#[kani::stub(ITimestamp::to_datetime, probe_to_datetime)]
+fn c03_shared_posix_evaluates_at_the_instant() {
+    use crate::shared::{PosixDay, PosixDayTime, PosixDst, PosixOffset, PosixRule, PosixTime};
+    let rule = PosixRule {
+        start: PosixDayTime { date: PosixDay::WeekdayOfMonth { month: 3, week: 2, weekday: 0 }, time: PosixTime { second: 7200 } },
+        end: PosixDayTime { date: PosixDay::WeekdayOfMonth { month: 11, week: 1, weekday: 0 }, time: PosixTime { second: 7200 } },
+    };
+    let tz: Shared = crate::shared::PosixTimeZone {
+        std_abbrev: "EST", std_offset: PosixOffset { second: -18000 },
+        dst: Some(PosixDst { abbrev: "EDT", offset: PosixOffset { second: -14400 }, rule }),
+    };
+    let s: i64 = kani::any(); let n: i32 = kani::any();
+    kani::assume(-377705023201 <= s && s <= 253402207200 && -999_999_999 <= n && n <= 999_999_999);
+    kani::assume(!(s > 0 && n < 0) && !(s < 0 && n > 0));
+    let ts = ITimestamp { second: s, nanosecond: n };
+    if kani::any() { let _ = tz.to_offset(ts); } else { let _ = tz.to_offset_info(ts); }
+    unsafe {
+        assert!(DT_CALLS == 1);
+        assert!(DT_ARG.second == s && DT_ARG.nanosecond == n);
+        assert!(DT_OFF == 0);
+    }
+}
